@@ -381,7 +381,7 @@ type Atom struct {
 // atomsOf decomposes cond (taken in direction dir) into facts that certainly hold.
 // For a conjunction taken true, both conjuncts hold; go/ssa lowers && and || into control
 // flow, so conditions are mostly primitive already.
-var atomDepth int
+var atomDepth, atomFlowDepth, atomPhiDepth int
 
 func atomsOf(cond ssa.Value, dir bool) []Atom {
 	switch x := cond.(type) {
@@ -460,7 +460,13 @@ func atomsOf(cond ssa.Value, dir bool) []Atom {
 				}
 				continue
 			}
+			if e == ssa.Value(x) || atomPhiDepth > 4 {
+				okAll = false
+				continue
+			}
+			atomPhiDepth++
 			sub = append(sub, atomsOf(e, dir)...)
+			atomPhiDepth--
 		}
 		if okAll && len(x.Edges) == 2 && len(sub) > 0 {
 			// exactly one non-constant edge and the constant edge has value !dir
@@ -473,10 +479,14 @@ func atomsOf(cond ssa.Value, dir bool) []Atom {
 			if nonConst == 1 {
 				// the phi has the value dir only when control came through its non-constant
 				// edge: the facts dominating that predecessor hold as well
-				for i, e := range x.Edges {
-					if _, isC := constBool(e); !isC && i < len(x.Block().Preds) {
-						sub = append(sub, factsAt(x.Block().Preds[i])...)
+				if atomFlowDepth < 2 {
+					atomFlowDepth++
+					for i, e := range x.Edges {
+						if _, isC := constBool(e); !isC && i < len(x.Block().Preds) {
+							sub = append(sub, factsAt(x.Block().Preds[i])...)
+						}
 					}
+					atomFlowDepth--
 				}
 				return sub
 			}
@@ -520,7 +530,10 @@ func naturalLoops(fn *ssa.Function) []*Loop {
 	byHeader := map[*ssa.BasicBlock]*Loop{}
 	var order []*ssa.BasicBlock
 	for _, b := range fn.Blocks {
-		for _, s := range b.Succs {
+		for si, s := range b.Succs {
+			if deadEdge(b, si) {
+				continue
+			}
 			if s.Dominates(b) { // back edge b -> s
 				l := byHeader[s]
 				if l == nil {
@@ -538,7 +551,11 @@ func naturalLoops(fn *ssa.Function) []*Loop {
 						continue
 					}
 					l.Blocks[x] = true
-					stack = append(stack, x.Preds...)
+					for _, pr := range x.Preds {
+						if !deadEdge(pr, succIndex(pr, x)) {
+							stack = append(stack, pr)
+						}
+					}
 				}
 			}
 		}
@@ -563,7 +580,10 @@ func (l *Loop) cycleAvoiding(removed map[*ssa.BasicBlock]bool) []*ssa.BasicBlock
 	}
 	seen := map[*ssa.BasicBlock]bool{}
 	var queue []*item
-	for _, s := range l.Header.Succs {
+	for si, s := range l.Header.Succs {
+		if deadEdge(l.Header, si) {
+			continue
+		}
 		if l.Blocks[s] && !removed[s] {
 			if s == l.Header {
 				return []*ssa.BasicBlock{l.Header}
@@ -577,7 +597,10 @@ func (l *Loop) cycleAvoiding(removed map[*ssa.BasicBlock]bool) []*ssa.BasicBlock
 	for len(queue) > 0 {
 		it := queue[0]
 		queue = queue[1:]
-		for _, s := range it.b.Succs {
+		for si, s := range it.b.Succs {
+			if deadEdge(it.b, si) {
+				continue
+			}
 			if s == l.Header {
 				var path []*ssa.BasicBlock
 				for x := it; x != nil; x = x.prev {
@@ -620,9 +643,119 @@ func reachableBlocks(from *ssa.BasicBlock, stop map[*ssa.BasicBlock]bool) map[*s
 		if stop != nil && stop[b] && b != from {
 			continue
 		}
-		stack = append(stack, b.Succs...)
+		for si, sc := range b.Succs {
+			if !deadEdge(b, si) {
+				stack = append(stack, sc)
+			}
+		}
 	}
 	return seen
+}
+
+// deadEdge: the branch edge b -> b.Succs[idx] can never be taken because its condition
+// contradicts a condition already decided on every path to b (the same test repeated, a
+// constant condition). go/ssa does not thread jumps; code produced by the loop-body
+// normalisation (normalize.go) repeats the caller's tests under the branch that set the
+// tested variable, and hand-written code occasionally re-tests an error. Dominance is that of
+// the unpruned graph (fewer facts, never wrong ones).
+var deadEdgeMemo = map[*ssa.BasicBlock][2]int8{}
+
+var liveBlocksMemo = map[*ssa.Function]map[*ssa.BasicBlock]bool{}
+
+// liveBlocks: blocks reachable from the entry over edges whose own condition is not dead.
+func liveBlocks(fn *ssa.Function) map[*ssa.BasicBlock]bool {
+	if m, ok := liveBlocksMemo[fn]; ok {
+		return m
+	}
+	m := map[*ssa.BasicBlock]bool{}
+	liveBlocksMemo[fn] = m
+	if len(fn.Blocks) == 0 {
+		return m
+	}
+	stack := []*ssa.BasicBlock{fn.Blocks[0]}
+	if fn.Recover != nil {
+		stack = append(stack, fn.Recover)
+	}
+	for len(stack) > 0 {
+		b := stack[len(stack)-1]
+		stack = stack[:len(stack)-1]
+		if m[b] {
+			continue
+		}
+		m[b] = true
+		for i, s := range b.Succs {
+			if !deadCond(b, i) {
+				stack = append(stack, s)
+			}
+		}
+	}
+	return m
+}
+
+// deadEdge: the edge can never be taken: its condition is decided the other way (deadCond), or
+// its source block is reachable only over such edges.
+func deadEdge(b *ssa.BasicBlock, idx int) bool {
+	if deadCond(b, idx) {
+		return true
+	}
+	if fn := b.Parent(); fn != nil && len(fn.Blocks) > 0 {
+		return !liveBlocks(fn)[b]
+	}
+	return false
+}
+
+func deadCond(b *ssa.BasicBlock, idx int) bool {
+	if idx < 0 || idx > 1 || len(b.Succs) != 2 || b.Succs[0] == b.Succs[1] || len(b.Instrs) == 0 {
+		return false
+	}
+	iff, ok := b.Instrs[len(b.Instrs)-1].(*ssa.If)
+	if !ok {
+		return false
+	}
+	if m, ok := deadEdgeMemo[b]; ok && m[idx] != 0 {
+		return m[idx] == 1
+	}
+	m := deadEdgeMemo[b]
+	res := int8(2)
+	if cb, isC := constBool(iff.Cond); isC {
+		if cb != (idx == 0) {
+			res = 1
+		}
+	} else {
+		facts := factsAt(b)
+		for _, e := range atomsOf(iff.Cond, idx == 0) {
+			if e.Kind == "val" && e.X != nil {
+				if cb, isC := constBool(e.X); isC && cb != e.Pos {
+					res = 1
+				}
+			}
+			if e.Kind == "nil" && e.X != nil && isNilConst(e.X) && !e.Pos {
+				res = 1 // nil != nil
+			}
+			for _, f := range facts {
+				if f.Kind != e.Kind || f.Pos == e.Pos {
+					continue
+				}
+				switch e.Kind {
+				case "nil", "val":
+					if f.X == e.X && e.X != nil {
+						res = 1
+					}
+				case "eq", "lt", "le":
+					if f.X == e.X && f.Y == e.Y && e.X != nil {
+						res = 1
+					}
+				case "call":
+					if f.Call == e.Call && e.Call != nil {
+						res = 1
+					}
+				}
+			}
+		}
+	}
+	m[idx] = res
+	deadEdgeMemo[b] = m
+	return res == 1
 }
 
 func blockPath(p *Program, bs []*ssa.BasicBlock) []string {
